@@ -107,6 +107,50 @@ def case(cls, params, choice):
     return None, True
 
 
+def rebuild_case(docname, mi):
+    """from_children of the class of an existing model, fed with deep copies of that model's own children: the result is a valid tree of one store, every child
+    lives in that store, and it prints to text that parses back to the same structure as the original model (spacing aside)"""
+    import copy
+    from drivers import docops, corpus
+    f = PARSER.parse(corpus.lookup(docname), models.File)
+    ms = docops.tree_models(f)
+    if mi >= len(ms): return None, False
+    m = ms[mi]; cls = type(m)
+    fc = getattr(cls, 'from_children', None)
+    if fc is None or cls.__name__ in ('File', 'Repeated'): return None, False
+    try: sig = inspect.signature(fc)
+    except (TypeError, ValueError): return None, False
+    kwargs = {}
+    for n, p in sig.parameters.items():
+        if n == 'indent_by':
+            kwargs[n] = getattr(m, 'indent_by', '    '); continue
+        if not hasattr(cls, 'raw_' + n): 
+            if p.default is inspect.Parameter.empty: return None, False
+            continue
+        v = getattr(m, 'raw_' + n)
+        if v is None: kwargs[n] = None
+        elif isinstance(v, base.RawModel): kwargs[n] = copy.deepcopy(v)
+        else:
+            try: kwargs[n] = [copy.deepcopy(x) for x in v]
+            except TypeError: return None, False
+    desc = f'{cls.__name__}.from_children(<copies of the children of {tree.model_text(m)!r:.80}>)'
+    try: r = fc(**kwargs)
+    except (ValueError, TypeError, AssertionError): return None, False
+    v = tree.valid(r)
+    if v: return f'{desc}: constructed tree invalid: {v}', True
+    for n, a in kwargs.items():
+        for x in (a if isinstance(a, list) else [a]):
+            if isinstance(x, base.RawTreeModel) and x.token_store is not r.token_store: return f'{desc}: child {n} ({type(x).__name__}) was not moved into the store of the new model', True
+            if isinstance(x, base.RawTreeModel) and tree.valid(x, r.token_store, n): return f'{desc}: child {n} is not a valid subtree of the new store: {tree.valid(x, r.token_store, n)}', True
+    text = tree.model_text(r)
+    if tree.store_text(r.token_store) != text: return f'{desc}: the new store holds other text than the model prints', True
+    if tree.flat_structure(r) != tree.flat_structure(m): return f'{desc}: structure differs from the model the children were copied from; text {text!r}', True
+    try: g = PARSER.parse(text, cls)
+    except Exception: return None, True      # not every class is a start symbol of its own (checked through from_value / File assembly elsewhere)
+    if tree.flat_structure(g) != tree.flat_structure(r): return f'{desc}: parsed structure differs from the constructed one; text {text!r}', True
+    return None, True
+
+
 def run(prop, tier, seed):
     rnd = random.Random(seed)
     rep = Report('constructors', __doc__.strip().replace('\n', ' ') + ' distinct by (class, argument choice); non-trivial = the argument combination is accepted', bound='representative values, all presence subsets (<= 256 per class in quick)')
@@ -130,12 +174,26 @@ def run(prop, tier, seed):
             except Exception: msg, nt = 'driver error: ' + traceback.format_exc()[-600:], True
             rep.case(key, nt, dict(cls=cls.__name__, choice=[str(c) for c in choice]) if rnd.random() < 0.002 else None)
             if msg: rep.fail(f'{cls.__name__}:{re.sub("[0-9]+", "N", re.sub(chr(39) + "[^" + chr(39) + "]*" + chr(39), "S", msg.split(": ", 1)[-1]))[:80]}', msg, dict(cls=cls.__name__, choice=list(choice)))
+    # from_children over copies of the children of every model of a few corpus documents (incl. the hand-written number expression classes)
+    from drivers import docops, corpus
+    names = ['txn2', 'txn3', 'open3', 'balance1', 'custom1', 'zero-numbers', 'bare-costs', 'meta-amount', 'document1', 'note1'] if tier == 'quick' else [d[0] for d in corpus.documents() if '+lead' not in d[0]]
+    for dn in names:
+        try: n_models = len(docops.tree_models(PARSER.parse(corpus.lookup(dn), models.File)))
+        except Exception: continue
+        for mi in range(n_models):
+            key = ('rebuild', dn, mi)
+            if not rep.mine(key): continue
+            try: msg, nt = rebuild_case(dn, mi)
+            except Exception: msg, nt = 'driver error: ' + traceback.format_exc()[-600:], True
+            rep.case(key, nt)
+            if msg: rep.fail('rebuild:' + re.sub("[0-9]+", "N", re.sub(chr(39) + "[^" + chr(39) + "]*" + chr(39), "S", msg.split(": ", 1)[-1]))[:80], msg, dict(rebuild=[dn, mi]))
     rep.d['classes_covered'] = covered; rep.d['classes_without_from_value_or_values'] = skipped
     if not rep.d['samples']: rep.d['samples'].append(dict(note='see rule'))
     return rep
 
 
 def replay_case(c):
+    if 'rebuild' in c: return rebuild_case(*c['rebuild'])[0]
     cls = getattr(models, c['cls']); params = candidates(cls)
     return case(cls, params, tuple(c['choice']))[0]
 
